@@ -129,10 +129,14 @@ def check_merge(ctx, parts, extra, tag):
 def strat_parts():
     from hypothesis import strategies as st
     alpha = "abcde fg"
+    # decomposed text: base letters followed by combining marks (accents, vowel signs), as many OCR alphabets emit it
+    alpha_marks = "ae\u0301\u0308o \u0651\u0628"
 
     @st.composite
     def windows(draw):
         text = draw(st.text(alphabet=alpha, min_size=4, max_size=40))
+        if draw(st.integers(0, 5)) == 0:
+            text = draw(st.text(alphabet=alpha_marks, min_size=4, max_size=40))
         if draw(st.integers(0, 9)) == 0:
             text = draw(st.text(alphabet=alpha + "hijklmnopqrstuvwxyz", min_size=150, max_size=300))     # a long text line
         n = draw(st.integers(2, 5))
